@@ -35,6 +35,26 @@ theorem lexer_total (s : Str) (hs : s ≠ []) : ∃ ty n, lexOne s = some (ty, n
   | none => exact absurd h (pick_ne_none _ hne)
   | some p => exact ⟨p.1, p.2, rfl, lexOne_bound s p.1 p.2 h⟩
 
+theorem lexFuel_eq_filter (f : Nat) (s : Str) : lexFuel f s = (lexAllFuel f s).filter (fun t => decide (t.ty ≠ T_SKIP)) := by
+  induction f generalizing s with
+  | zero => rfl
+  | succ f ih =>
+    cases s with
+    | nil => rfl
+    | cons c cs =>
+      simp only [lexFuel, lexAllFuel]
+      cases h : lexOne (c :: cs) with
+      | none => rfl
+      | some p =>
+        obtain ⟨ty, n⟩ := p
+        simp only
+        by_cases hty : ty = T_SKIP <;> simp [hty, ih]
+
+/-- `lex` is the complete token sequence without its SKIP_ tokens (the differential channel compares the complete sequence's
+offsets, the theorems speak about `lex`) -/
+theorem lex_drops_skip_tokens (s : Str) : lex s = (lexAll s).filter (fun t => decide (t.ty ≠ T_SKIP)) :=
+  lexFuel_eq_filter _ s
+
 /-- a classified text is exactly one token, not a SKIP_ and not an UNKNOWN_CHAR token -/
 theorem token_alone (t : Str) (cls : Cls) (hc : classify t = some cls) :
     lex t = [tokOf t] ∧ (tokOf t).text = t ∧ (tokOf t).ty < T_SKIP ∧ T_SKIP < T_UNKNOWN := by
